@@ -1,10 +1,568 @@
 /-
 C13 — a piano roll shows exactly the given notes, in their cells, with their velocity.
-(property theorems; under construction)
+Property theorems over Model/PianoRoll.lean (the model mirrors the code with fixes/C13-1 applied).
+
+Vocabulary.  For options `o` and the note list `notes` (the rows handed to `_make_pianoroll`, in
+input order), `t0Of o notes` is the time of frame 0 (`t0_spec`), `onFrame`, `offFull`, `offIdx`,
+`offCell` are a note's onset frame, its end before separation, the end reported in its index row and
+the exclusive end of the frames it fills; `rowOf` is its row in the un-sliced roll.  `Roll.cell r p j`
+is `pianoroll.toarray()[p, j]` of the returned matrix (after the optional piano-range slice).
 -/
-import PartituraModel.Model.PianoRoll
+import PartituraModel.Proofs.C13
+import PartituraModel.Proofs.C13Pc
+import PartituraModel.Proofs.C13Cells
+import PartituraModel.Proofs.C13RoundTrip
 
 namespace C13
 open Model Model.PianoRoll
+open List
+
+def exOpts : Opts :=
+  { timeDiv := 2, onsetOnly := false, noteSep := false, pitchMargin := -1, timeMargin := 0,
+    pianoRange := false, removeSilence := false, endTime := none, binary := false }
+
+/-- rows deliberately not sorted by onset; two notes collide on pitch 60 -/
+def exNotes : List Note := [⟨60, 2, 1, 10⟩, ⟨62, 0, 3/2, 90⟩, ⟨60, 5/2, 1, 50⟩, ⟨64, 1, 0, 70⟩]
+
+/-! ### what the frames are -/
+
+/-- frame 0 is the first onset when silence is removed, else `min(0, first onset)` -/
+theorem t0_spec (o : Opts) (notes : List Note) (h : notes ≠ []) :
+    ∃ m, (∃ n ∈ notes, n.onset = m) ∧ (∀ n ∈ notes, m ≤ n.onset) ∧
+      t0Of o notes = if o.removeSilence then m else if 0 ≤ m then 0 else m :=
+  t0_spec_aux o notes h
+
+example : exNotes ≠ [] ∧ t0Of exOpts exNotes = 0 ∧ t0Of { exOpts with removeSilence := true } [⟨60, 2, 1, 10⟩] = 2 := by
+  decide +kernel
+
+/-- the onset frame is the nearest frame (ties to the even one) to `time_div * (onset - t0)`, shifted by the
+    leading margin; a note lasts `max(1, round(time_div * duration))` frames -/
+theorem frames_spec (o : Opts) (t0 : Rat) (n : Note) :
+    |((onFrame o t0 n - o.timeMargin * o.timeDiv : Int) : Rat) - (o.timeDiv : Rat) * (n.onset - t0)| ≤ 1 / 2 ∧
+    offFull o t0 n - onFrame o t0 n = max 1 (roundHalfEven ((o.timeDiv : Rat) * n.dur)) := by
+  constructor
+  · have := Round.roundHalfEven_close ((o.timeDiv : Rat) * (n.onset - t0))
+    unfold onFrame marginFrames
+    simpa using this
+  · unfold offFull durFrames
+    simp only
+    split <;> omega
+
+/-- every note occupies at least one frame, in every mode; note separation removes exactly the last frame of a
+    note that has more than one; onset mode keeps exactly the onset frame -/
+theorem min_one_frame (o : Opts) (t0 : Rat) (n : Note) :
+    onFrame o t0 n < offCell o t0 n ∧ offCell o t0 n ≤ offFull o t0 n ∧
+    (o.onsetOnly = true → offCell o t0 n = onFrame o t0 n + 1) ∧
+    (o.onsetOnly = false → o.noteSep = false → offCell o t0 n = offFull o t0 n) ∧
+    (o.onsetOnly = false → o.noteSep = true →
+      offCell o t0 n = max (onFrame o t0 n + 1) (offFull o t0 n - 1)) := by
+  refine ⟨onFrame_lt_offCell o t0 n, offCell_le_offFull o t0 n, ?_, ?_, ?_⟩
+  · intro h; simp [offCell, h]
+  · intro h1 h2
+    have := onFrame_lt_offFull o t0 n
+    simp only [offCell, offIdx, h1, h2, Bool.false_eq_true, if_false]
+    split <;> omega
+  · intro h1 h2
+    simp only [offCell, offIdx, h1, h2, Bool.false_eq_true, if_false, if_true]
+    split <;> omega
+
+/-! ### shape -/
+
+/-- 128 rows; 88 in piano range; pitch span plus twice the margin when a pitch margin is given
+    (`piano_range` being the slice `[21:109]` of whatever roll results) -/
+theorem shape_rows (o : Opts) (notes : List Note) (r : Roll) (h : makePianoroll o notes = some r) :
+    (o.pitchMargin = -1 → o.pianoRange = false → r.rows = 128) ∧
+    (o.pitchMargin = -1 → o.pianoRange = true → r.rows = 88) ∧
+    (o.pitchMargin > -1 → ∃ lo hi, (∃ n ∈ notes, n.pitch = lo) ∧ (∀ n ∈ notes, lo ≤ n.pitch) ∧
+        (∃ n ∈ notes, n.pitch = hi) ∧ (∀ n ∈ notes, n.pitch ≤ hi) ∧
+        (o.pianoRange = false → r.rows = (hi - lo + 1) + 2 * o.pitchMargin) ∧
+        (o.pianoRange = true → r.rows = min 109 ((hi - lo + 1) + 2 * o.pitchMargin) - min 21 ((hi - lo + 1) + 2 * o.pitchMargin))) :=
+  shape_rows_aux o notes r h
+
+/-- as many columns as the time span requires: the trailing margin after the last note end (taken before note
+    separation / onset mode shorten the notes; the leading margin is inside the frames), or, with `end_time`,
+    the frames up to `end_time`, which must not precede the last note end -/
+theorem shape_cols (o : Opts) (notes : List Note) (r : Roll) (h : makePianoroll o notes = some r) :
+    ∃ last, (∃ n ∈ notes, offFull o (t0Of o notes) n = last) ∧ (∀ n ∈ notes, offFull o (t0Of o notes) n ≤ last) ∧
+      (o.endTime = none → r.cols = o.timeDiv * o.timeMargin + last) ∧
+      (∀ e, o.endTime = some e →
+        (last : Rat) ≤ (e - t0Of o notes) * (o.timeDiv : Rat) ∧
+        r.cols = Rat.ceil (((o.timeDiv * o.timeMargin : Int) : Rat) + (o.timeDiv : Rat) * (e - t0Of o notes))) := by
+  obtain ⟨hne, _, N, hN, _, rfl⟩ := (makePianoroll_eq_some o notes r).mp h
+  obtain ⟨last, hl⟩ := best?_isSome_of_ne_nil (fun a b : Int => decide (b ≤ a))
+    (l := notes.map (offFull o (t0Of o notes))) (by simpa using hne)
+  have hl' : maxInt? (notes.map (offFull o (t0Of o notes))) = some last := hl
+  obtain ⟨h1, h2⟩ := (maxInt?_some_iff _ _).mp hl'
+  obtain ⟨n1, hn1, he1⟩ := mem_map.mp h1
+  have hmax : maxOffOf o notes = last := by rw [maxOffOf_eq, hl']; rfl
+  refine ⟨last, ⟨n1, hn1, he1⟩, fun n hn => h2 _ (mem_map.mpr ⟨n, hn, rfl⟩), ?_, ?_⟩
+  · intro he
+    unfold colsOf at hN
+    rw [he, hmax] at hN
+    simp only [Option.some.injEq] at hN
+    simp [rollOf, hN]
+  · intro e he
+    unfold colsOf at hN
+    rw [he, hmax] at hN
+    simp only at hN
+    split at hN
+    · simp at hN
+    · rename_i hlt
+      simp only [Option.some.injEq] at hN
+      exact ⟨not_lt.mp hlt, by simp only [rollOf]; exact hN.symm⟩
+
+example : (makePianoroll exOpts exNotes).map (fun r => (r.rows, r.cols)) = some (128, 7) := by decide +kernel
+example : (makePianoroll { exOpts with pianoRange := true, timeMargin := 1 } exNotes).map (fun r => (r.rows, r.cols))
+    = some (88, 11) := by decide +kernel
+example : (makePianoroll { exOpts with pitchMargin := 2, endTime := some 4 } exNotes).map (fun r => (r.rows, r.cols))
+    = some (9, 8) := by decide +kernel
+/-- an `end_time` before the last note end is rejected -/
+example : makePianoroll { exOpts with endTime := some 3 } exNotes = none := by decide +kernel
+
+/-! ### cells -/
+
+/-- **cell value**: a cell no note covers is 0; a covered cell holds the velocity of a covering note that is
+    the maximum over all covering notes (1 instead in binary mode) — whatever the order of the rows -/
+theorem cell_value (o : Opts) (notes : List Note) (r : Roll) (h : makePianoroll o notes = some r)
+    (p j : Int) (hp0 : 0 ≤ p) (hp1 : p < r.rows) :
+    ((¬ ∃ n ∈ notes, Covers o notes n (p + r.rowStart) j) → r.cell p j = 0) ∧
+    ((∃ n ∈ notes, Covers o notes n (p + r.rowStart) j) →
+      ∃ n ∈ notes, Covers o notes n (p + r.rowStart) j ∧
+        (∀ n' ∈ notes, Covers o notes n' (p + r.rowStart) j → n'.vel ≤ n.vel) ∧
+        r.cell p j = if o.binary = true ∧ n.vel ≠ 0 then 1 else n.vel) :=
+  cell_value_aux o notes r h p j hp0 hp1
+
+/-- **cell (p, j) is non-zero exactly when a note of that row sounds during frame j** (at its onset frame only
+    in onset mode, without its last frame under note separation, never less than one frame: `min_one_frame`),
+    for MIDI velocities (> 0; a note array without velocity column has velocity 1 everywhere) -/
+theorem cell_iff (o : Opts) (notes : List Note) (r : Roll) (h : makePianoroll o notes = some r)
+    (hv : ∀ n ∈ notes, 0 < n.vel) (p j : Int) (hp0 : 0 ≤ p) (hp1 : p < r.rows) :
+    r.cell p j ≠ 0 ↔ ∃ n ∈ notes, Covers o notes n (p + r.rowStart) j := by
+  obtain ⟨h1, h2⟩ := cell_value o notes r h p j hp0 hp1
+  constructor
+  · intro hne
+    by_contra hc
+    exact hne (h1 hc)
+  · intro hc
+    obtain ⟨n, hn, _, _, he⟩ := h2 hc
+    have := hv n hn
+    rw [he]
+    split <;> omega
+
+/-- in binary mode, and without velocities, the covered cells hold 1 -/
+theorem cell_binary (o : Opts) (notes : List Note) (r : Roll) (h : makePianoroll o notes = some r)
+    (hv : ∀ n ∈ notes, 0 < n.vel) (hb : o.binary = true ∨ ∀ n ∈ notes, n.vel = 1)
+    (p j : Int) (hp0 : 0 ≤ p) (hp1 : p < r.rows)
+    (hc : ∃ n ∈ notes, Covers o notes n (p + r.rowStart) j) : r.cell p j = 1 := by
+  obtain ⟨n, hn, _, _, he⟩ := (cell_value o notes r h p j hp0 hp1).2 hc
+  have := hv n hn
+  rw [he]
+  rcases hb with hb | hb
+  · rw [if_pos ⟨hb, by omega⟩]
+  · split
+    · rfl
+    · exact hb n hn
+
+/-- nothing is drawn outside the matrix: every sounding frame of every note is a cell of the (un-sliced) roll -/
+theorem cells_in_range (o : Opts) (notes : List Note) (r : Roll) (h : makePianoroll o notes = some r)
+    (n : Note) (hn : n ∈ notes) (q j : Int) (hc : Covers o notes n q j) :
+    0 ≤ q ∧ q < rowsFull o notes ∧ 0 ≤ j ∧ j < r.cols :=
+  cells_in_range_aux o notes r h n hn q j hc
+
+example : (makePianoroll exOpts exNotes).map
+    (fun r => [r.cell 60 4, r.cell 60 5, r.cell 60 6, r.cell 62 0, r.cell 62 3, r.cell 64 2, r.cell 64 3, r.cell 61 4])
+    = some [10, 50, 50, 90, 0, 70, 0, 0] := by decide +kernel
+example : ∃ n ∈ exNotes, Covers exOpts exNotes n 60 5 := ⟨⟨60, 5/2, 1, 50⟩, by decide +kernel, by
+  unfold Covers; decide +kernel⟩
+
+/-! ### order independence -/
+
+/-- **whatever the order of the input rows**: a permutation of the rows is accepted or rejected alike and
+    gives the same shape and the same matrix; the index rows are permuted along -/
+theorem order_indep (o : Opts) {notes notes' : List Note} (hp : notes ~ notes') :
+    (makePianoroll o notes = none ↔ makePianoroll o notes' = none) ∧
+    ∀ r r', makePianoroll o notes = some r → makePianoroll o notes' = some r' →
+      r.rows = r'.rows ∧ r.cols = r'.cols ∧ (∀ p j, r.cell p j = r'.cell p j) ∧ r.idx ~ r'.idx := by
+  have key : ∀ {a b : List Note}, a ~ b → ∀ r, makePianoroll o a = some r →
+      ∃ r', makePianoroll o b = some r' ∧ r.rows = r'.rows ∧ r.cols = r'.cols ∧
+        (∀ p j, r.cell p j = r'.cell p j) ∧ r.idx ~ r'.idx := by
+    intro a b hab r hr
+    obtain ⟨hne, hd, N, hN, hb, rfl⟩ := (makePianoroll_eq_some o a r).mp hr
+    refine ⟨rollOf o b N, ?_, ?_, rfl, ?_, ?_⟩
+    · rw [makePianoroll_eq_some]
+      refine ⟨fun hnil => hne (by subst hnil; exact hab.eq_nil), fun n hn => hd n (hab.mem_iff.mpr hn), N,
+        by rw [← colsOf_perm o hab]; exact hN, ?_, rfl⟩
+      intro e he
+      rw [← rowsFull_perm o hab]
+      exact hb e ((fillOf_perm o hab).mem_iff.mpr he)
+    · simp only [rollOf, rowsFull_perm o hab]
+    · apply cell_congr
+      · simp only [rollOf, rowsFull_perm o hab]
+      · rfl
+      · rfl
+      · rfl
+      · intro p j
+        exact keyMax_perm (fillOf_perm o hab) p j
+    · simp only [rollOf, idxOf_eq]
+      rw [lowestOf_perm o hab, t0Of_perm o hab]
+      exact hab.map _
+  constructor
+  · constructor
+    · intro hn
+      cases hr : makePianoroll o notes' with
+      | none => rfl
+      | some r' =>
+        obtain ⟨r, hr2, _⟩ := key hp.symm r' hr
+        rw [hn] at hr2; cases hr2
+    · intro hn
+      cases hr : makePianoroll o notes with
+      | none => rfl
+      | some r =>
+        obtain ⟨r', hr2, _⟩ := key hp r hr
+        rw [hn] at hr2; cases hr2
+  · intro r r' hr hr'
+    obtain ⟨r'', hr2, h1, h2, h3, h4⟩ := key hp r hr
+    rw [hr'] at hr2
+    cases hr2
+    exact ⟨h1, h2, h3, h4⟩
+
+example : exNotes ~ exNotes.reverse ∧ exNotes ≠ exNotes.reverse := ⟨(reverse_perm _).symm, by decide⟩
+
+/-! ### index rows -/
+
+/-- **the index rows are in input order**: row `i` is `(row, onset frame, offset frame, midi pitch)` of the
+    `i`-th input note -/
+theorem idx_rows (o : Opts) (notes : List Note) (r : Roll) (h : makePianoroll o notes = some r) :
+    r.idx = notes.map fun n =>
+      (rowOf o (lowestOf o notes) n - r.rowStart, onFrame o (t0Of o notes) n, offIdx o (t0Of o notes) n, n.pitch) := by
+  obtain ⟨_, _, N, _, _, rfl⟩ := (makePianoroll_eq_some o notes r).mp h
+  simp only [rollOf, idxOf_eq]
+  rfl
+
+/-- **the index rows designate exactly the non-zero cells**: cell `(p, j)` is non-zero iff some index row has
+    vertical position `p` and `onset ≤ j < offset` (in onset mode: `j = onset`) -/
+theorem idx_designate (o : Opts) (notes : List Note) (r : Roll) (h : makePianoroll o notes = some r)
+    (hv : ∀ n ∈ notes, 0 < n.vel) (p j : Int) (hp0 : 0 ≤ p) (hp1 : p < r.rows) :
+    r.cell p j ≠ 0 ↔
+      ∃ row ∈ r.idx, row.1 = p ∧ row.2.1 ≤ j ∧ j < (if o.onsetOnly then row.2.1 + 1 else row.2.2.1) := by
+  rw [cell_iff o notes r h hv p j hp0 hp1, idx_rows o notes r h]
+  simp only [mem_map, Covers]
+  constructor
+  · rintro ⟨n, hn, h1, h2, h3⟩
+    refine ⟨_, ⟨n, hn, rfl⟩, by simp only; omega, h2, ?_⟩
+    unfold offCell at h3
+    simpa using h3
+  · rintro ⟨row, ⟨n, hn, rfl⟩, h1, h2, h3⟩
+    refine ⟨n, hn, by simp only at h1; omega, h2, ?_⟩
+    unfold offCell
+    simpa using h3
+
+example : (makePianoroll exOpts exNotes).map (·.idx) = some [(60, 4, 6, 60), (62, 0, 3, 62), (60, 5, 7, 60), (64, 2, 3, 64)] := by
+  decide +kernel
+
+/-! ### piano range -/
+
+/-- **the piano-range roll is rows 21..108 of the roll without that option** (and exists exactly when it does) -/
+theorem piano_range (o : Opts) (notes : List Note) (r : Roll)
+    (h : makePianoroll { o with pianoRange := false } notes = some r) :
+    ∃ r', makePianoroll { o with pianoRange := true } notes = some r' ∧
+      r'.rows = min 109 r.rows - min 21 r.rows ∧ r'.cols = r.cols ∧
+      (∀ p j, 0 ≤ p → p < r'.rows → r'.cell p j = r.cell (p + 21) j) ∧
+      r'.idx = r.idx.map fun (a, b, c, d) => (a - 21, b, c, d) := by
+  obtain ⟨hne, hd, N, hN, hb, rfl⟩ := (makePianoroll_eq_some _ notes r).mp h
+  refine ⟨rollOf { o with pianoRange := true } notes N, ?_, ?_, rfl, ?_, ?_⟩
+  · rw [makePianoroll_eq_some]
+    exact ⟨hne, hd, N, hN, hb, rfl⟩
+  · simp only [rollOf, Bool.false_eq_true, if_false, if_true]
+    have : rowsFull { o with pianoRange := true } notes = rowsFull { o with pianoRange := false } notes := rfl
+    rw [this]
+    omega
+  · intro p j hp0 hp1
+    have hf : fillOf { o with pianoRange := true } notes = fillOf { o with pianoRange := false } notes := rfl
+    have hR : rowsFull { o with pianoRange := true } notes = rowsFull { o with pianoRange := false } notes := rfl
+    simp only [rollOf, if_true, hR] at hp1
+    simp only [Roll.cell, rollOf, rowStartOf, if_true, Bool.false_eq_true, if_false, hf, hR, add_zero]
+    have hg : (0 ≤ p + 21 ∧ p + 21 < rowsFull { o with pianoRange := false } notes) := by
+      constructor
+      · omega
+      · split at hp1 <;> split at hp1 <;> omega
+    by_cases hj : 0 ≤ j ∧ j < N
+    · rw [if_pos ⟨hp0, hp1, hj.1, hj.2⟩, if_pos ⟨hg.1, hg.2, hj.1, hj.2⟩]
+    · rw [if_neg (fun hc => hj ⟨hc.2.2.1, hc.2.2.2⟩), if_neg (fun hc => hj ⟨hc.2.2.1, hc.2.2.2⟩)]
+  · simp only [rollOf, idxOf_eq, map_map]
+    apply map_congr_left
+    intro n _
+    show idxRow { o with pianoRange := true } _ _ 21 n = _
+    simp only [Function.comp, idxRow, rowStartOf, Bool.false_eq_true, if_false, sub_zero]
+    rfl
+
+example : (makePianoroll { exOpts with pianoRange := true } exNotes).map (fun r => (r.rows, r.cell 39 4, r.cell 41 0))
+    = some (88, 10, 90) := by decide +kernel
+
+/-! ### pitch-class roll -/
+
+/-- cells are never negative when velocities are not -/
+theorem cell_nonneg (o : Opts) (notes : List Note) (r : Roll) (h : makePianoroll o notes = some r)
+    (hv : ∀ n ∈ notes, 0 ≤ n.vel) (p j : Int) : 0 ≤ r.cell p j := by
+  by_cases hp : 0 ≤ p ∧ p < r.rows
+  · obtain ⟨h1, h2⟩ := cell_value o notes r h p j hp.1 hp.2
+    by_cases hc : ∃ n ∈ notes, Covers o notes n (p + r.rowStart) j
+    · obtain ⟨n, hn, _, _, he⟩ := h2 hc
+      have := hv n hn
+      rw [he]
+      split <;> omega
+    · rw [h1 hc]
+  · unfold Roll.cell
+    rw [if_neg (fun hc => hp ⟨hc.1, hc.2.1⟩)]
+
+/-- **the pitch-class roll is the octave fold of the full roll**: entry `(c, j)` is the sum of the cells
+    `(p, j)` of the 128-row roll over all pitches `p ≡ c (mod 12)` -/
+theorem pc_fold (r : Roll) (hr : r.rows ≤ 128) (c : Nat) (hc : c < 12) (j : Int) :
+    pcCell r c j = sumOver (fun p => r.cell p j) ((range 128).filter (fun p => p % 12 = c)) := by
+  have h0 : pcCell r c j = sumOver (fun i => (fun p : Nat => r.cell p j) (12 * i + c)) (range 11) := by
+    unfold pcCell sumOver
+    simp only [Nat.cast_add, Nat.cast_mul, Nat.cast_ofNat]
+  rw [h0, ← sumOver_fold (fun p : Nat => r.cell p j) c hc 11]
+  have h132 : range (12 * 11) = range 128 ++ [128, 129, 130, 131] := by decide
+  rw [h132, filter_append, sumOver_append]
+  have hz : sumOver (fun p : Nat => r.cell p j) (filter (fun p => decide (p % 12 = c)) [128, 129, 130, 131]) = 0 := by
+    apply sumOver_zero
+    intro p hp
+    have hp' : p ∈ [128, 129, 130, 131] := (mem_filter.mp hp).1
+    have : 128 ≤ p := by
+      simp only [mem_cons, not_mem_nil, or_false] at hp'
+      omega
+    unfold Roll.cell
+    rw [if_neg]
+    intro hcon
+    have := hcon.2.1
+    omega
+  rw [hz]
+  omega
+
+/-- the fold behind `compute_pitch_class_pianoroll`: always the 128-row, non-binary, drum-free roll of the
+    same notes, whose index rows get their vertical position reduced mod 12 -/
+theorem pc_base (a : NoteArray) (g : Args) (r : Roll) (h : computePcBase a g = some r) :
+    ∃ o notes r0,
+      prepare a { g with removeDrums := true,
+                         opts := { g.opts with pitchMargin := -1, pianoRange := false, binary := false } } = some (o, notes) ∧
+      o.pitchMargin = -1 ∧ o.pianoRange = false ∧ o.binary = false ∧
+      makePianoroll o notes = some r0 ∧ r.rows = 128 ∧ r.cols = r0.cols ∧
+      (∀ p j, r.cell p j = r0.cell p j) ∧
+      r.idx = r0.idx.map fun (p, on, off, mp) => (p % 12, on, off, mp) := by
+  unfold computePcBase computePianoroll at h
+  split at h
+  · simp at h
+  · rename_i r0 hr0
+    split at hr0
+    · simp at hr0
+    · rename_i o notes hprep
+      simp only [Option.some.injEq] at h
+      subst h
+      have hopts : o.pitchMargin = -1 ∧ o.pianoRange = false ∧ o.binary = false := by
+        unfold prepare at hprep
+        simp only at hprep
+        split at hprep
+        · simp at hprep
+        · split at hprep
+          · simp at hprep
+          · split at hprep
+            · simp at hprep
+            · split at hprep
+              · simp at hprep
+              · split at hprep
+                · simp at hprep
+                · simp only [Option.some.injEq, Prod.mk.injEq] at hprep
+                  obtain ⟨ho, _⟩ := hprep
+                  subst ho
+                  exact ⟨rfl, rfl, rfl⟩
+      refine ⟨o, notes, r0, hprep, hopts.1, hopts.2.1, hopts.2.2, hr0, ?_, rfl, fun p j => rfl, rfl⟩
+      exact (shape_rows o notes r0 hr0).1 hopts.1 hopts.2.1
+
+/-- **normalised per frame**: every column of the normalised pitch-class roll sums to 1 or is entirely 0 -/
+theorem pc_normalised (r : Roll) (b : Bool) (j : Int) (hnn : ∀ p j, 0 ≤ r.cell p j) :
+    (range 12).foldr (fun c s => pcOut r b true (c : Nat) j + s) 0 = 1 ∨
+    ∀ c : Nat, c < 12 → pcOut r b true c j = 0 := by
+  have hval : ∀ c : Nat, 0 ≤ pcValue r b c j := by
+    intro c
+    unfold pcValue
+    simp only
+    split
+    · omega
+    · unfold pcCell
+      exact sumOver_nonneg (fun i => r.cell (12 * (i : Int) + c) j) (range 11) (fun p _ => hnn _ _)
+  have hsum : pcColSum r b j = sumOver (fun c => pcValue r b c j) (range 12) := rfl
+  by_cases hs : pcColSum r b j = 0
+  · right
+    intro c hc
+    have hz := (sumOver_eq_zero_iff (fun c => pcValue r b c j) (range 12) (fun p _ => hval p)).mp (hsum ▸ hs)
+      c (mem_range.mpr hc)
+    simp [pcOut, hs, hz]
+  · left
+    have : (fun (c : Nat) (s : Rat) => pcOut r b true c j + s) =
+        fun (c : Nat) (s : Rat) => ((pcValue r b c j : Int) : Rat) / ((pcColSum r b j : Int) : Rat) + s := by
+      funext c s
+      simp [pcOut, hs]
+    rw [this, foldr_div (fun c => pcValue r b c j) _ (range 12), ← hsum]
+    have hne : ((pcColSum r b j : Int) : Rat) ≠ 0 := by exact_mod_cast hs
+    exact div_self hne
+
+/-- the column the driver prints (values, one sum and one division per entry, as in the code) is `pcOut` entry by entry -/
+theorem pc_column (r : Roll) (b nz : Bool) (j : Int) :
+    pcColumn r b nz j = (range 12).map fun (c : Nat) => pcOut r b nz (c : Int) j := by
+  have hs : ((range 12).map fun (c : Nat) => pcValue r b (c : Int) j).foldr (fun v acc => v + acc) 0 = pcColSum r b j := by
+    unfold pcColSum
+    rw [foldr_map]
+  unfold pcColumn
+  simp only [hs, map_map]
+  cases nz <;> simp [pcOut, Function.comp_def]
+
+/-- without normalisation the entries are the folded integers (1 for every sounding class when binary) -/
+theorem pc_plain (r : Roll) (b : Bool) (c j : Int) :
+    pcOut r b false c j = ((if b = true ∧ pcCell r c j > 0 then 1 else pcCell r c j : Int) : Rat) := by
+  unfold pcOut pcValue
+  by_cases hb : b = true <;> by_cases hc : pcCell r c j > 0 <;> simp [hb, hc]
+
+example : (makePianoroll exOpts exNotes).map (fun r => (pcCell r 0 4, pcCell r 0 5, pcCell r 2 0, pcCell r 2 2, pcCell r 4 2))
+    = some (10, 50, 90, 90, 70) := by decide +kernel
+example : (makePianoroll exOpts exNotes).map (fun r => (pcOut r false true 2 2 * 16, pcOut r false true 4 2 * 16, pcOut r true true 4 2 * 2))
+    = some (9, 7, 1) := by decide +kernel
+
+/-! ### unit selection (`get_time_units_from_note_array`, `time_div="auto"`) -/
+
+/-- score units win over performance units; beat over quarter over div; sec over tick -/
+theorem auto_units (units : List String) :
+    timeUnitsAuto units =
+      match ["beat", "quarter", "div"].find? (units.contains ·) with
+      | some u => some u
+      | none => ["sec", "tick"].find? (units.contains ·) := by
+  unfold timeUnitsAuto
+  cases h1 : units.contains "beat" <;> cases h2 : units.contains "quarter" <;> cases h3 : units.contains "div" <;>
+    cases h4 : units.contains "sec" <;> cases h5 : units.contains "tick" <;>
+    simp only [List.find?, h1, h2, h3, h4, h5] <;> rfl
+
+/-- **field selection, unit inference, drum filtering**: a successful `compute_pianoroll` hands
+    `_make_pianoroll` the rows in input order — without the rows of channel 9 when a channel column exists and
+    drums are removed — with the onset/duration pair of the chosen unit (the requested one, which must be a
+    known unit, or the inferred one), velocity 1 when there is no velocity column, and `time_div` as given or,
+    on "auto", the default of the unit; every other option is passed through -/
+theorem prepare_spec (a : NoteArray) (g : Args) (o : Opts) (notes : List Note) (h : prepare a g = some (o, notes)) :
+    ∃ unit k,
+      (g.timeUnit = "auto" ∨ g.timeUnit ∈ TIME_UNITS) ∧
+      (if g.timeUnit = "auto" then timeUnitsAuto a.units = some unit else unit = g.timeUnit) ∧
+      indexOf unit a.units = some k ∧
+      (match g.timeDiv with
+       | none => autoTimeDiv unit = some o.timeDiv
+       | some d => o.timeDiv = d) ∧
+      o = { g.opts with timeDiv := o.timeDiv } ∧
+      Forall₂ (fun r n => ∃ on du, r.times[k]? = some (on, du) ∧
+          n = { pitch := r.pitch, onset := on, dur := du, vel := if a.hasVel then r.vel.getD 1 else 1 })
+        (if a.hasChan && g.removeDrums then a.rows.filter (fun r => r.chan != some 9) else a.rows) notes := by
+  unfold prepare at h
+  split at h
+  · simp at h
+  · rename_i hunit
+    simp only at h
+    split at h
+    · simp at h
+    · rename_i unit hu
+      split at h
+      · simp at h
+      · rename_i td htd
+        split at h
+        · simp at h
+        · rename_i k hk
+          split at h
+          · simp at h
+          · rename_i ns hns
+            simp only [Option.some.injEq, Prod.mk.injEq] at h
+            obtain ⟨ho, hn⟩ := h
+            subst ho hn
+            refine ⟨unit, k, ?_, ?_, hk, ?_, rfl, ?_⟩
+            · simp only [Bool.not_eq_true, Bool.not_eq_false', Bool.or_eq_true, decide_eq_true_eq] at hunit
+              rcases hunit with hc | hc
+              · right; simpa using hc
+              · left; exact hc
+            · split
+              · rename_i hauto; simpa [hauto] using hu
+              · rename_i hauto
+                simp only [hauto, if_false, Option.some.injEq] at hu
+                exact hu.symm
+            · cases hd : g.timeDiv with
+              | none => simpa [hd] using htd
+              | some d => simp only [hd, Option.some.injEq] at htd; simp [htd]
+            · refine (toNotes_forall₂ a k _ _ hns).imp ?_
+              intro r n hrn
+              unfold toNote at hrn
+              split at hrn
+              · simp at hrn
+              · rename_i on du ht
+                exact ⟨on, du, ht, (Option.some.inj hrn).symm⟩
+
+/-- eight frames per beat / quarter / second, one per div / tick -/
+theorem auto_time_div : TIME_UNITS.map autoTimeDiv = [some 8, some 8, some 8, some 1, some 1] := by decide
+
+/-! ### the inverse: `pianoroll_to_notearray` -/
+
+/-- **decoder, every integer matrix**: only 128- and 88-row rolls are accepted (pitch offset 0 / 21); the notes
+    returned are, without repetition and sorted by (onset, pitch, offset, velocity), exactly the maximal
+    horizontal runs of one non-zero value: `pitch = row + offset`, `onset = start / time_div`,
+    `duration = length / time_div`, `velocity = value` -/
+theorem decode_spec (rows : Nat) (cols : List (List Int)) (td : Int) :
+    ((rows ≠ 128 ∧ rows ≠ 88) → decode rows cols td = none) ∧
+    ∀ init, (rows = 128 ∧ init = 0) ∨ (rows = 88 ∧ init = 21) →
+      decode rows cols td = some ((decodeRuns cols).map (outOf init td)) ∧
+      (decodeRuns cols).Nodup ∧ (decodeRuns cols).Pairwise (fun a b => runLe a b = true) ∧
+      ∀ x : Run, x ∈ decodeRuns cols ↔
+        (x.vel ≠ 0 ∧ x.on < x.off ∧ x.off ≤ cols.length ∧
+          (∀ s, x.on ≤ s → s < x.off → cellAt cols x.pitch s = x.vel) ∧
+          (x.on = 0 ∨ cellAt cols x.pitch (x.on - 1) ≠ x.vel) ∧
+          (x.off = cols.length ∨ cellAt cols x.pitch x.off ≠ x.vel)) := by
+  constructor
+  · rintro ⟨h1, h2⟩
+    simp [decode, h1, h2]
+  · intro init hinit
+    obtain ⟨h1, h2, h3⟩ := decodeRuns_spec cols
+    exact ⟨decode_eq rows cols td init hinit, h1, h2, h3⟩
+
+/-- the sort key is the lexicographic order on (onset, pitch, offset, velocity) -/
+theorem decode_order (a b : Run) : runLe a b = true ↔
+    (a.on < b.on ∨ (a.on = b.on ∧ (a.pitch < b.pitch ∨ (a.pitch = b.pitch ∧
+      (a.off < b.off ∨ (a.off = b.off ∧ a.vel ≤ b.vel)))))) := runLe_iff a b
+
+/-- **round trip**: turning the roll of grid-aligned, non-touching notes back into a note array recovers every
+    pitch, onset, duration and velocity (as a multiset; the decoder's own order is `decode_order`).
+    `RoundTripOpts`: positive `time_div`, full notes (no onset mode / separation), fixed pitch axis, no time
+    margin, `remove_silence = False`, no `end_time`, not binary; in piano range the pitches lie in 21..108. -/
+theorem decode_encode (o : Opts) (notes : List Note) (r : Roll) (ho : RoundTripOpts o)
+    (h : makePianoroll o notes = some r) (hg : ∀ n ∈ notes, GridAligned o n) (hv : ∀ n ∈ notes, 0 < n.vel)
+    (hnt : NonTouching notes)
+    (hpr : o.pianoRange = true → ∀ n ∈ notes, 21 ≤ n.pitch ∧ n.pitch ≤ 108) :
+    ∃ out, decode r.rows.toNat r.toCols o.timeDiv = some out ∧
+      out ~ notes.map (fun n => (n.pitch, n.onset, n.dur, n.vel)) :=
+  decode_encode_aux o notes r ho h hg hv hnt hpr
+
+def rtOpts : Opts := { exOpts with removeSilence := false }
+/-- two notes of pitch 60 separated by one empty frame, one of pitch 62 overlapping them in time -/
+def rtNotes : List Note := [⟨60, 2, 1, 10⟩, ⟨62, 1/2, 3, 90⟩, ⟨60, 1/2, 1, 50⟩]
+
+example : RoundTripOpts rtOpts := ⟨by decide, rfl, rfl, rfl, rfl, rfl, rfl, rfl⟩
+example : ∀ n ∈ rtNotes, GridAligned rtOpts n := by
+  intro n hn
+  simp only [rtNotes, mem_cons, not_mem_nil, or_false] at hn
+  rcases hn with rfl | rfl | rfl
+  · exact ⟨4, 2, by decide, by decide +kernel, by decide +kernel⟩
+  · exact ⟨1, 6, by decide, by decide +kernel, by decide +kernel⟩
+  · exact ⟨1, 2, by decide, by decide +kernel, by decide +kernel⟩
+example : NonTouching rtNotes := by
+  unfold NonTouching rtNotes
+  simp only [pairwise_cons, mem_cons, not_mem_nil, or_false, forall_eq_or_imp, forall_eq, Pairwise.nil,
+    IsEmpty.forall_iff, implies_true, and_true]
+  decide +kernel
+example : (makePianoroll rtOpts rtNotes).bind (fun r => decode r.rows.toNat r.toCols 2)
+    = some [(60, 1/2, 1, 50), (62, 1/2, 3, 90), (60, 2, 1, 10)] := by decide +kernel
+/-- touching notes of equal velocity merge, so the hypothesis is needed -/
+example : (makePianoroll rtOpts [⟨60, 0, 1, 10⟩, ⟨60, 1, 1, 10⟩]).bind (fun r => decode r.rows.toNat r.toCols 2)
+    = some [(60, 0, 2, 10)] := by decide +kernel
 
 end C13
